@@ -19,11 +19,11 @@ const RUN_TIMEOUT: Duration = Duration::from_secs(300);
 /// (family, runs in the quick tier, runs in the thorough tier)
 pub fn plan(property: &str) -> Vec<(&'static str, u64, u64)> {
     match property {
-        "C07" => vec![("rmw", 96, 3000)],
+        "C07" => vec![("rmw", 72, 2200), ("crdel", 48, 1500)],
         "C11" => vec![("ttl", 80, 2000)],
         "C13" => vec![("limit", 64, 1500), ("ttl", 32, 800)],
-        "C14" => vec![("range", 96, 2500)],
-        "C20" => vec![("range", 64, 1500), ("rmw", 48, 1200), ("ttl", 48, 1200), ("limit", 24, 600)],
+        "C14" => vec![("range", 72, 2000), ("crdel", 32, 1000)],
+        "C20" => vec![("range", 64, 1500), ("rmw", 48, 1200), ("ttl", 48, 1200), ("limit", 24, 600), ("crdel", 24, 600)],
         _ => vec![],
     }
 }
